@@ -551,7 +551,8 @@ fn forge(key: &SigningKey, seq: u64, args: Args_) -> TestOperation {
         signature: None,
         payload_size: 0,
         payload_hash: None,
-        seq_num: seq as _,
+        // seq 0: a header with seq > 0 and no backlink is not decodable when read back from the message store
+        seq_num: { let _ = seq; 0 },
         backlink: None,
         extensions: args,
     };
@@ -695,11 +696,38 @@ async fn adversarial(out: &mut Out, rng: &mut Rng, rounds: usize) {
         for (class, key, gid, action, deps) in auth_cases {
             add('a', class, key, SpacesArgs::Auth { group_id: gid, group_action: action, auth_dependencies: deps }, &mut cases);
         }
-        // --- SpaceMembership pointing at a (stored, never successfully processed) Promote auth message
+        // --- SpaceMembership whose auth_message_id points at STORED messages of an unsupported / different kind
         {
-            let promote = forge(&member_key, 5000, SpacesArgs::Auth { group_id: space_group, group_action: p2panda_auth::group::GroupAction::Promote { member: GroupMember::Individual(w.ids[2]), access: Access::manage() }, auth_dependencies: heads.last().copied().into_iter().collect() });
-            let _ = w.peers[victim].persist_operation(&promote).await;
-            cases.push(('m', "known-space/promote-auth-target".to_string(), forge(&member_key, 5001, SpacesArgs::SpaceMembership { space_id: sc.space, group_id: space_group, space_dependencies: vec![w.log[sc.membership].op.hash], auth_message_id: promote.hash, direct_messages: vec![] })));
+            use p2panda_auth::group::GroupAction;
+            let deps: Vec<Hash> = heads.last().copied().into_iter().collect();
+            let mut pointer_targets: Vec<(String, Hash)> = vec![];
+            // (a) valid Promote / Demote auth messages of a real manager, delivered first (must be an error, no panic)
+            for (name, action) in [
+                ("promote", GroupAction::Promote { member: GroupMember::Individual(w.ids[2]), access: Access::manage() }),
+                ("demote", GroupAction::Demote { member: GroupMember::Individual(w.ids[2]), access: Access::read() }),
+            ] {
+                for (who, key) in [("manager1", &member_key), ("creator", &w.peers[0].credentials.signing_key())] {
+                    let op = forge(key, 0, SpacesArgs::Auth { group_id: space_group, group_action: action.clone(), auth_dependencies: deps.clone() });
+                    pointer_targets.push((format!("{name}-auth-by-{who}"), op.hash));
+                    cases.push(('a', format!("{name}/stored-by-{who}"), op));
+                }
+            }
+            // (b) stored non-auth messages: application, key bundle, the space's own membership message
+            pointer_targets.push(("application-target".into(), app_hash));
+            pointer_targets.push(("keybundle-target2".into(), w.log[1].op.hash));
+            pointer_targets.push(("membership-target".into(), w.log[sc.membership].op.hash));
+            // (c) unknown id
+            pointer_targets.push(("unknown-target".into(), rand_hash(rng)));
+            for (name, target) in pointer_targets {
+                for (dclass, sdeps) in [("deps-tip", vec![w.log[sc.membership].op.hash]), ("deps-none", vec![])] {
+                    let key = if name.ends_with("creator") { w.peers[0].credentials.signing_key() } else { member_key.clone() };
+                    cases.push((
+                        'm',
+                        format!("pointer/{name}/{dclass}"),
+                        forge(&key, 0, SpacesArgs::SpaceMembership { space_id: sc.space, group_id: space_group, space_dependencies: sdeps, auth_message_id: target, direct_messages: vec![] }),
+                    ));
+                }
+            }
         }
         // --- KeyBundle
         let id1 = w.peers[1].credentials.identity_secret();
@@ -712,9 +740,12 @@ async fn adversarial(out: &mut Out, rng: &mut Rng, rounds: usize) {
         add('k', "changed-identity-key", &member_key, SpacesArgs::KeyBundle { key_bundle: make_bundle(&other_identity, &crng, -60, 3600, false) }, &mut cases);
 
         for (kind, class, op) in cases {
+            let before = if class.starts_with("pointer/") { Some(digest(&w.peers[victim]).await) } else { None };
             let r = deliver(&w.peers[victim], &op).await;
+            let pointer_changed = match &before { Some(b) => *b != digest(&w.peers[victim]).await, None => false };
+            if std::env::var("C39_DEBUG").is_ok() { eprintln!("{kind} {class}: {:?}", r); }
             // kinds / contents the routing must reject outright: SpaceUpdate, auth Promote / Demote
-            let must_reject = kind == 'u' || class.starts_with("promote") || class.starts_with("demote");
+            let must_reject = kind == 'u' || class.starts_with("promote") || class.starts_with("demote") || class.starts_with("pointer/promote") || class.starts_with("pointer/demote");
             let ans = match (&r, must_reject) {
                 (Outcome::Panic(_), _) => "panic",
                 (Outcome::Err(_), true) => "err",
@@ -724,9 +755,19 @@ async fn adversarial(out: &mut Out, rng: &mut Rng, rounds: usize) {
             let req = format!("X {kind} {class} {}", r.word().chars().next().unwrap());
             let n = out.case(&req, ans, true);
             out.count(&format!("adversarial:{}:{}", kind_name(kind), r.word()));
+            if class.starts_with("pointer/") && !class.contains("membership-target") {
+                // a pointer to a stored unsupported auth action, to a non-auth message or to nothing: error, nothing changes
+                if matches!(r, Outcome::Ok(_)) {
+                    out.oracle_fail(n, "membership-pointer-accepted", &format!("membership message pointing at {class} was accepted"), &req, ans);
+                } else if pointer_changed {
+                    out.oracle_fail(n, "membership-pointer-state-changed", &format!("rejected membership message ({class}) changed the persisted state"), &req, ans);
+                }
+            }
             if let Outcome::Panic(m) = &r {
                 let short: String = m.chars().take(60).collect();
-                let tag = if class.starts_with("promote") || class.starts_with("demote") {
+                let tag = if class.starts_with("pointer/promote") || class.starts_with("pointer/demote") {
+                    "panic-membership-pointer-unsupported-auth".to_string()
+                } else if class.starts_with("promote") || class.starts_with("demote") {
                     "panic-auth-promote-demote-unimplemented".to_string()
                 } else if class == "changed-identity-key" {
                     "panic-keybundle-identity-key-changed".to_string()
